@@ -440,7 +440,12 @@ def enumerate_faults(case, ref, d):
             chosen.append(rest.pop(i))
             weights.pop(i)
     sl, n = spec.get("slice", [0, 1])
-    return [f for i, f in enumerate(chosen) if i % n == sl]
+    out = [f for i, f in enumerate(chosen) if i % n == sl]
+    # faults inside pool workers are few and only exist for multi-core real-physics
+    # workloads: always try every one of them (in the first slice of the workload)
+    if sl == 0:
+        out += [f for f in allf if f["type"] == "worker" and f not in out]
+    return out
 
 
 # ---------------------------------------------------------------------------
